@@ -67,6 +67,16 @@ Theorem C09_done_change_same_footprint :
 Proof. exact run_same_footprint. Qed.
 Print Assumptions C09_done_change_same_footprint.
 
+(* ... hence undoing / redoing a performed change later (any tree, any schedule, any variant) touches only
+   what was announced before it was performed. *)
+Theorem C09_frame_undo_of_done :
+  forall (v : variant) (f : nat) (js : bool) (k : sched) (d : dir) (c : change) (m m' : fs) (k' : sched)
+         (c' : change) (v2 : variant) (f2 : nat) (js2 : bool) (k2 : sched) (d2 : dir) (m2 : fs) (key : list N),
+    run v f js k d c m = Ok m' k' c' -> footprint c key = false ->
+    res_fs (run v2 f2 js2 k2 d2 c' m2) !! key = m2 !! key.
+Proof. exact run_frame_of_done. Qed.
+Print Assumptions C09_frame_undo_of_done.
+
 (* The join lemma: below a root without special segments, a resource path without special segments
    ("", ".", "..") is opened at exactly root/path. *)
 Theorem C09_real_path_in_root :
@@ -159,9 +169,13 @@ Theorem C09_creation_refusal_kinds_partial :
 Proof. exact creation_refusal_is_library_error. Qed.
 Print Assumptions C09_creation_refusal_kinds_partial.
 
-(* ---- the hypothesis all_in_root of C09_confined is not established by rope: finding ---- *)
-(* Rename(project, module b.py).get_changes("../evil") yields MoveResource(b.py -> ../evil.py); performing
-   it succeeds and creates a node outside the project root *)
+(* ---- the hypothesis all_in_root of C09_confined cannot be dropped ---- *)
+(* A statement about the change algebra (hand-built changes included): MoveResource(b.py -> ../evil.py) performs
+   successfully and creates a node outside the project root, so nothing in rope.base.change / project establishes
+   all_in_root.  This was reachable through Rename(project, module b.py).get_changes("../evil") (finding
+   C09-module-rename-escape); since repo commit 1c2d39e Rename refuses a module name that is not an identifier
+   (regression input: corpus/C09/module-rename-escape.json), and the harness checks on every performed change that
+   the refactorings only return all_in_root changes. *)
 Theorem C09_module_rename_escape_refuted :
   exists root c m m' k' c' key,
     in_root root = true /\ wf_fs m /\ all_in_root c = false /\
@@ -170,8 +184,13 @@ Theorem C09_module_rename_escape_refuted :
 Proof. exact module_rename_escape_refuted. Qed.
 Print Assumptions C09_module_rename_escape_refuted.
 
-(* MethodObject(...) / InlineMethod(only_current, remove) at a reference to a function defined in the
-   out-of-project module yield ChangeContents(../ext/extmod.py): performing it rewrites a file outside the root *)
+(* Likewise ChangeContents(../ext/extmod.py) performs and rewrites a file outside the root.  It was returned by
+   MethodObject(...) and InlineMethod(only_current, remove) at a reference to a function defined in the
+   out-of-project module (findings C09-method-object-out-of-project / C09-inline-out-of-project; refused resp.
+   skipped since repo commits 9e0989b / 94f57ce, regression inputs in corpus/C09/).  Still open: the cross-project
+   Rename of a local name (C09-multiproject-local-name) returns such a change, and the same two refactorings
+   still edit an IGNORED defining module (a symbolic link to an out-of-project file:
+   C09-method-object-ignored-defining-module, C09-inline-ignored-defining-module). *)
 Theorem C09_out_of_project_edit_refuted :
   exists root c m m' k' c' key,
     in_root root = true /\ wf_fs m /\ all_in_root c = false /\
